@@ -247,6 +247,42 @@ def run_check(modname, tier, seed, nproc=None, quiet=True):
             else:
                 violations.append((case, fl))
 
+    # optional free-running pass in the (non-daemonic) parent: real pools, outcome must be among the explored ones
+    free_runs = 0
+    if hasattr(mod, "parent_pass") and not harness_errors:
+        d = tempfile.mkdtemp(prefix="kvfree.", dir=SCRATCH_BASE)
+        sys.stdout.flush()
+        saved = (os.dup(1), os.dup(2))
+        devnull = os.open(os.devnull, os.O_WRONLY)
+        cwd = os.getcwd()
+        try:
+            os.dup2(devnull, 1)
+            os.dup2(devnull, 2)
+            os.chdir(d)
+            try:
+                items = mod.parent_pass(tier, seed, d)
+            except BaseException as e:
+                items = []
+                harness_errors.append((-1, "parent_pass: %s: %s" % (type(e).__name__, e)))
+        finally:
+            os.chdir(cwd)
+            os.dup2(saved[0], 1)
+            os.dup2(saved[1], 2)
+            for fd in saved + (devnull,):
+                os.close(fd)
+            shutil.rmtree(d, ignore_errors=True)
+        for it in items:
+            free_runs += 1
+            if it["outcome"] not in outcomes:
+                fails_total += 1
+                fl = {"clause": "real_pool_outcome_not_explored", "sub": {"what": it["what"]},
+                      "detail": "%s observed %s, which no explored schedule produced" % (it["what"], it.get("obs", ""))}
+                e = classify(mod, {"parent_pass": True}, fl, known)
+                if e is not None:
+                    known_hits.setdefault(e["signature"], [e, 0, ({}, fl)])
+                    known_hits[e["signature"]][1] += 1
+                else:
+                    violations.append(({"parent_pass": True, "what": it["what"]}, fl))
     if all_keys:
         ak = np.concatenate(all_keys)
         an = np.concatenate(all_nt)
@@ -293,6 +329,7 @@ def run_check(modname, tier, seed, nproc=None, quiet=True):
         "known_finding_executions": sum(v[1] for v in known_hits.values()),
         "known_findings_hit": sorted(known_hits),
         "workers": nproc,
+        "free_running_real_pool_runs": free_runs,
     }
     cov.update(extra)
     cov["model_conformance"] = conf
